@@ -52,4 +52,59 @@ def argsortPos (n : Nat) (trace : List (Nat × Nat)) : Option (List Nat) :=
   | some [t] => some t.inorder
   | _ => none
 
+/-! ### the clustering policy (`_hierarchical_cluster`) for an arbitrary similarity measure
+
+The similarity measure is an oracle: in every round it may give any value to any pair of the current clusters (it may look
+at the whole current list - merged clusters carry the identifier a previous round gave them). Values are integers standing
+for doubles under an order-preserving injection (only `<`, `<=` and `argmax` are applied to them). -/
+
+/-- two `pop`s in a row: `a = nodes.pop(i); b = nodes.pop(j); nodes.append(merge(a, b))` - `j` indexes the SHORTENED list -/
+def popTwice (nodes : List (Tree κ)) (i j : Nat) : Option (List (Tree κ)) :=
+  match nodes[i]? with
+  | none => none                                   -- IndexError
+  | some a => match (nodes.eraseIdx i)[j]? with
+    | none => none                                 -- IndexError
+    | some b => some (((nodes.eraseIdx i).eraseIdx j) ++ [Tree.node a b])
+
+/-- the `sims` matrix: zero diagonal, the oracle's value for `row < col` mirrored -/
+def entry (s : Nat → Nat → Int) (r c : Nat) : Int := if r = c then 0 else if r < c then s r c else s c r
+
+/-- `np.argmax`: the FIRST position of the maximum among positions `0..m` -/
+def argmaxFirstAux (f : Nat → Int) : Nat → Nat
+  | 0 => 0
+  | m + 1 => if f (argmaxFirstAux f m) < f (m + 1) then m + 1 else argmaxFirstAux f m
+
+/-- which two positions one round pops (the second one indexes the shortened list), for `n >= 2` clusters -/
+def choose (n : Nat) (s : Nat → Nat → Int) (eps : Int) : Nat × Nat :=
+  let k := argmaxFirstAux (fun k => entry s (k / n) (k % n)) (n * n - 1)
+  let r := k / n
+  let c := k % n
+  if entry s r c ≤ eps then (n - 1, n - 2)          -- nothing similar is left: the last two
+  else (max r c, min r c)
+
+/-- `while len(nodes) > 1: ...`; `fuel` bounds the rounds (`len(nodes)` suffices: theorem) -/
+def clusterLoop (sim : List (Tree κ) → Nat → Nat → Int) (eps : Int) : Nat → List (Tree κ) → Option (List (Tree κ))
+  | 0, nodes => some nodes
+  | fuel + 1, nodes =>
+    if nodes.length ≤ 1 then some nodes
+    else (popTwice nodes (choose nodes.length (sim nodes) eps).1 (choose nodes.length (sim nodes) eps).2).bind
+      (clusterLoop sim eps fuel)
+
+/-- the whole `argsort` with the clustering policy inside -/
+def argsortPolicy (sim : List (Tree κ) → Nat → Nat → Int) (eps : Int) (source : List κ) : Option (List Nat) :=
+  match clusterLoop sim eps source.length (source.map Tree.leaf) with
+  | some [t] => findIndices source t.inorder
+  | _ => none
+
+/-- the pops of every round, for the correspondence run -/
+def policyTrace (sim : List (Tree κ) → Nat → Nat → Int) (eps : Int) : Nat → List (Tree κ) → List (Nat × Nat)
+  | 0, _ => []
+  | fuel + 1, nodes =>
+    if nodes.length ≤ 1 then []
+    else
+      let ij := choose nodes.length (sim nodes) eps
+      match popTwice nodes ij.1 ij.2 with
+      | none => [ij]
+      | some nodes' => ij :: policyTrace sim eps fuel nodes'
+
 end Hpv.Sorting
